@@ -53,7 +53,7 @@ class Case(object):
         self.nfiles = 0
 
     def size(self):
-        return os.path.getsize(self.path) if self.path else len(self.data)
+        return os.path.getsize(self.path) if self.path else len(self.data or b'')
 
     def key(self, symptom=None):
         return '%s x %s|%s|%s' % (self.op, self.construct, self.tool, symptom or self.symptom)
@@ -109,9 +109,10 @@ def execute(data, tool, args=(), name='in.exp', path=None, timeout=60):
         if path is None:
             os.mkdir(os.path.join(top, 'src'))
             path = os.path.join(top, 'src', name)
-            with open(path, 'wb') as f:
-                f.write(data)
-            n = len(data)
+            if data is not None:        # data None: the named input file does not exist
+                with open(path, 'wb') as f:
+                    f.write(data)
+            n = len(data or b'')
         else:
             n = os.path.getsize(path)
         r = run.run([os.path.join(b, 'bin', tool)] + list(args) + [path], cwd=wd, env=_state['env'], timeout=timeout,
@@ -120,6 +121,23 @@ def execute(data, tool, args=(), name='in.exp', path=None, timeout=60):
         return r, nfiles
     finally:
         shutil.rmtree(top, ignore_errors=True)
+
+
+def warning_names():
+    """Warning class names the tools advertise in their usage text (after an unknown option)."""
+    b = tools_dir()
+    r = run.run([os.path.join(b, 'bin', 'check-express'), '-Z'], cwd='/dev/shm', env=_state['env'], timeout=30)
+    names, on = [], False
+    for l in (r.err + '\n' + r.out).split('\n'):
+        if l.startswith('and <warning> is one of'):
+            on = True
+        elif on and l.startswith('\t'):
+            n = l.strip().split()[0]
+            if n not in names:
+                names.append(n)
+        elif on:
+            break
+    return names
 
 
 def run_case(c, timeout=60):
